@@ -1,7 +1,7 @@
 META = {
     "level": "model_checking",
     "technique": "symbolic (Dolev-Yao) TLA+ model of the key exchange with a one-field man in the middle and re-exchanges (Kex.tla) model-checked by TLC; every scenario TLC emits replayed as real handshakes between two paramiko Transports for kex methods x host-key algorithms; the recorded K/H/session id/signature facts of every exchange judged by TLC with the trace spec",
-    "text": "TLC checks on the symbolic model that a finished exchange implies equal K and H and a signature over H verifying under the shown key, that the session id is the first H for ever, whatever hash family (digest size) a later exchange negotiates (invariant and action property), and that an altered reply field in ANY exchange makes the client abort and that after every exchange the stored host key is the server's (six seeded design errors must be caught, among them 'verify only when the host key blob is new' and 'session id re-latched when the digest size changes'); TLC emits every (altered field, number of re-exchanges) scenario; each is run on real client/server Transports over an in-memory link whose plaintext man in the middle (first exchange) or the harness-owned server end (re-exchanges 1..3) changes the value of exactly one field of the server's reply (host key swapped for another valid key / one bit, f or Q_S changed / replaced by another valid value, signature bits / signature over other data / signature by an unrelated key, signature algorithm name, gex p, gex g); both peers log K, H, session_id at _set_K_H, the client logs _verify_key / NEWKEYS; the signature is re-verified with the cryptography package directly and H is rebuilt from the wire; TLC judges every exchange of every session with Kex_Trace",
+    "text": "TLC checks on the symbolic model that a finished exchange implies equal K and H and a signature over H verifying under the shown key, that the session id is the first H for ever, whatever hash family (digest size) a later exchange negotiates (invariant and action property), and that an altered reply field in ANY exchange makes the client abort and that after every exchange the stored host key is the server's (seven seeded design errors must be caught, among them 'the transcript hash covers a masked copy of the received public value', among them 'verify only when the host key blob is new' and 'session id re-latched when the digest size changes'); TLC emits every (altered field, number of re-exchanges) scenario; each is run on real client/server Transports over an in-memory link whose plaintext man in the middle (first exchange) or the harness-owned server end (re-exchanges 1..3) changes the value of exactly one field of the server's reply (host key swapped for another valid key / one bit, f or Q_S changed / replaced by another valid value / any single bit flipped (every bit of the 32..133-byte values in the thorough tier, stratified in quick), single bits of e or Q_C on the way to the server, signature bits / signature over other data / signature by an unrelated key, signature algorithm name, gex p, gex g); both peers log K, H, session_id at _set_K_H, the client logs _verify_key / NEWKEYS; the signature is re-verified with the cryptography package directly and H is rebuilt from the wire; TLC judges every exchange of every session with Kex_Trace",
     "note": "trusted: TLC, the in-memory link and its packet parser, the cryptography package for the independent signature check; re-exchange faults are injected at the server end, not on the (encrypted) wire; alterations change a field's value, never only its encoding; gss-* kex is not exercised",
 }
 import random
@@ -10,12 +10,52 @@ from harness.core import cfg_text, Machinery
 from harness.drivers import kex as drv
 
 INVS = ["Agreement", "HostKeyAuthentic", "SessionIdFixed", "AlteredAborts"]
-ALLF = {"hostkey", "pub", "sig", "sigalg", "group"}
+ALLF = {"hostkey", "pub", "pubbit", "initbit", "sig", "sigalg", "group"}
 FIELD_ALTS = {"none": ["none"], "hostkey": ["hostkey_swap", "hostkey_bits"], "pub": ["pub", "pub_valid"],
-              "sig": ["sig_bits", "sig_other_data", "sig_other_key"], "sigalg": ["sig_alg"], "group": ["gex_p", "gex_g"]}
+              "sig": ["sig_bits", "sig_other_data", "sig_other_key"], "sigalg": ["sig_alg"], "group": ["gex_p", "gex_g"],
+              "pubbit": [], "initbit": []}      # single-bit flips of f / Q_S and e / Q_C: planned separately (bit_plan)
 MUTS = [("skip_verify", "Agreement|AlteredAborts"), ("sid_overwrite", "SessionIdFixed"),
         ("ignore_sig_alg", "AlteredAborts"), ("verify_before_hash_binding", "Agreement|AlteredAborts"),
-        ("verify_only_new_key", "Agreement|AlteredAborts|HostKeyAuthentic"), ("sid_by_digest_size", "SessionIdFixed")]
+        ("verify_only_new_key", "Agreement|AlteredAborts|HostKeyAuthentic"), ("sid_by_digest_size", "SessionIdFixed"),
+        ("hash_masked_pub", "AlteredAborts")]
+
+
+def bit_plan(q, rnd, maxrekey, fams):
+    """single-bit flips of the public values (msb-first bit numbers, negative = from the end).  Fixed-size values
+    (X25519: 32 bytes, NIST points: 65/97/133 bytes): thorough = EVERY bit of f / Q_S, quick = X25519 stratified
+    (first and last bit of every byte, all bits of the first and last byte) and, for one method of every other
+    family, the first byte's outer bits, the whole last byte and seeded others.  mpints (128..513 bytes): stratified
+    samples.  e / Q_C towards the server: X25519 every bit (thorough) / last byte + samples (quick), samples elsewhere.
+    Re-exchanges: a few flips at the server end."""
+    out = []      # (kex, alteration, exchange index)
+    x = drv.FAST_KEX
+    if q:
+        out += [(x, "pub_bit:%d" % k, 0) for k in drv.stratified_bits(32)]
+        out += [(x, "init_bit:%d" % k, 0) for k in sorted(set(range(248, 256)) | {0, 7} | set(rnd.sample(range(8, 248), 6)))]
+        for fam, names in sorted(fams.items()):
+            if fam == "x25519":
+                continue
+            kex = names[rnd.randrange(len(names))]
+            nb = 8 * drv.PUB_BYTES.get(kex, 128)
+            out += [(kex, "pub_bit:%d" % k, 0) for k in [0, 7] + list(range(-8, 0)) + rnd.sample(range(8, nb - 8), 6)]
+            out += [(kex, "init_bit:%d" % k, 0) for k in [0, -8, -1, rnd.randrange(8, nb - 8)]]
+        for n in range(1, maxrekey + 1):
+            out += [(x, "pub_bit:%d" % k, n) for k in (-8, -1, rnd.randrange(0, 248))]
+    else:
+        for kex in drv.KEX_NAMES:
+            nbytes = drv.PUB_BYTES.get(kex)
+            if nbytes:
+                out += [(kex, "pub_bit:%d" % k, 0) for k in range(8 * nbytes)]
+                ks = range(256) if kex == x else sorted(set(range(8)) | set(range(8 * nbytes - 8, 8 * nbytes)) |
+                                                        set(rnd.sample(drv.stratified_bits(nbytes), 32)))
+                out += [(kex, "init_bit:%d" % k, 0) for k in ks]
+            else:
+                ks = list(range(8)) + list(range(-8, 0)) + [8 * b + o for b in rnd.sample(range(1, 120), 12) for o in (0, 7)]
+                out += [(kex, "pub_bit:%d" % k, 0) for k in ks]
+                out += [(kex, "init_bit:%d" % k, 0) for k in (0, 7, -8, -1) + tuple(rnd.sample(range(8, 900), 4))]
+            for n in range(1, maxrekey + 1):
+                out += [(kex, "pub_bit:%d" % k, n) for k in (-8, -1, rnd.randrange(0, 8 * (nbytes or 128)))]
+    return out
 
 
 METHODS = {"sha1", "sha256", "sha384", "sha512"}      # hash families (digest sizes 20, 32, 48, 64) of the kex methods
@@ -107,12 +147,18 @@ def run(c):
     def changes(m):
         return sum(1 for a, b in zip(m, m[1:]) if a != b)
     turn = {}
+    have = {(x[0], x[1]): x[2] for g in cases for x in cases[g]}
+    for j, (kex, alt, n) in enumerate(bit_plan(q, rnd, maxrekey, fams)):
+        fld = "pubbit" if alt.startswith("pub_bit") else "initbit"
+        if (fld, n) not in have:
+            raise Machinery("the model has no case for %s in exchange %d" % (fld, n))
+        plan.append((kex, algs[(j + c.seed) % 7], alt, n, have[(fld, n)]))
     records, meta = [], []
     first_varied = True
     for kex, alg, alt, rk, out in plan:
         kexes = [kex]
         if rk:
-            fld = inv_alt[alt]
+            fld = inv_alt.get(alt) or ("pubbit" if alt.startswith("pub_bit") else "initbit")
             cand = sorted((m for m in seqs[(fld, rk)] if m[0] == drv.KEX_HASH[kex]), key=lambda m: (-changes(m), m))
             if not cand or len(cand[0]) != rk + 1:
                 raise Machinery("no method sequence emitted for %s at %d starting with %s" % (fld, rk, drv.KEX_HASH[kex]))
@@ -122,7 +168,7 @@ def run(c):
             for i, h in enumerate(m[1:]):
                 kexes.append(by_hash[h][(t + i + c.seed) % len(by_hash[h])])
         rec = drv.run_kex(kexes, alg, alt, rekeys=rk, rnd=rnd, at=0 if alt == "none" else rk)
-        if [x["engine"] for x in rec["exchanges"]] != kexes[:len(rec["exchanges"])]:
+        if any(x["engine"] and x["engine"] != k for x, k in zip(rec["exchanges"], kexes)):
             raise Machinery("exchanges used %r, planned %r" % ([x["engine"] for x in rec["exchanges"]], kexes))
         if alt == "none":
             if not (rec["client_ok"] and rec["server_ok"]) or rec["rekeys"] != rk:
@@ -144,7 +190,8 @@ def run(c):
     c.extra["coverage_kex"] = sorted({k for r in records for k in r["kexes"]})
     c.extra["sessions_with_digest_size_change"] = sum(1 for r in records if len({x["meth"] for x in r["exchanges"]}) > 1)
     c.extra["coverage_hostkey_algs"] = sorted({r["hostalg"] for r in records})
-    c.extra["coverage_alterations"] = sorted({r["alter"] for r in records})
+    c.extra["coverage_alterations"] = sorted({r["alter"].split(":")[0] for r in records})
+    c.extra["single_bit_flips"] = sum(1 for r in records if ":" in r["alter"])
 
     # ---- TV: every exchange of every session judged by the trace spec
     res, _ = c.trace("Kex_Trace", records, cfg_text(spec="TSpec", constants=consts(True, maxrekey), invariants=["Report"]))
@@ -155,9 +202,12 @@ def run(c):
     def describe(tid, clause, row):
         rec = meta[tid - 1]
         key = clause if clause in ("P_session_id_changed",) else "%s:%s%s" % (
-            clause, rec["alter"], ":rekey" if rec["alter"] != "none" and rec["alter_at"] > 0 else "")
-        what = "%s / %s, altered field %s (in exchange %d), exchange %d: clause %s fails (%s; client error: %s)" % (
-            rec["kex"], rec["hostalg"], rec["alter"], rec["alter_at"], row[2], clause, rec["exchanges"][min(row[2], len(rec["exchanges"]) - 1)],
+            clause, rec["alter"].split(":")[0], ":rekey" if rec["alter"] != "none" and rec["alter_at"] > 0 else "")
+        what = "%s / %s, altered field %s %s(in exchange %d), exchange %d: clause %s fails (%s; client error: %s)" % (
+            rec["kex"], rec["hostalg"], rec["alter"],
+            ("= bit %d of %d bytes, byte %d mask 0x%02x " % (rec["applied_detail"][1], rec["applied_detail"][2], rec["applied_detail"][1] // 8,
+                                                          0x80 >> (rec["applied_detail"][1] % 8))) if ":" in rec["alter"] and rec["applied_detail"] else "",
+            rec["alter_at"], row[2], clause, rec["exchanges"][min(row[2], len(rec["exchanges"]) - 1)],
             rec["errors"].get("client", "none"))
         return key, what, {"kex": rec["kex"], "hostalg": rec["hostalg"], "alter": rec["alter"], "rekeys": rec["rekeys"],
                            "record": rec}
@@ -167,7 +217,7 @@ def run(c):
     c.rule = ("scenarios = (altered reply field | none, index of the altered exchange | number of re-exchanges) emitted by TLC from Kex.tla; each run as a real session: "
               + ("every kex method once, every host-key algorithm; first exchange: every alteration once per kex family; every re-exchange index: every alteration once" if q else
                  "every kex method x host-key algorithm: one honest session (0..%d re-exchanges), every alteration in the first exchange, half of the alterations in one re-exchange each (index and half rotate over the pairs)" % maxrekey)
-              + "; re-exchanges switch to kex methods of the hash families (sha1/256/384/512) TLC chose for them, by changing both peers' security options before renegotiate_keys(); distinct = (kex method per exchange, host-key algorithm, alteration, exchange index)")
+              + " + single-bit flips of f / Q_S / e / Q_C (X25519 and NIST points: every bit in thorough, first+last bit of every byte and the whole first/last byte of X25519 values in quick; samples for mpints)" + "; re-exchanges switch to kex methods of the hash families (sha1/256/384/512) TLC chose for them, by changing both peers' security options before renegotiate_keys(); distinct = (kex method per exchange, host-key algorithm, alteration, exchange index)")
     c.assumptions = ["alterations of a re-exchange are made at the server end (the harness owns the server; on the wire they are encrypted and MACed: C02); the gex group is altered in the first exchange only",
                      "group exchange uses published safe primes (RFC 2409/3526) installed as the server's modulus pack",
                      "an alteration changes the value of one field as delivered to the client; encodings are left canonical"]
